@@ -29,7 +29,7 @@ end = comment[...].suppress() + n | pp.StringEnd()
 note = pp.CaselessLiteral("note:") + _ - string_literal('text')
 note.set_parse_action(lambda s, loc, tok: NoteBlueprint(tok['text']))
 
-note_object = pp.CaselessLiteral('note') + _ - '{' + _ - string_literal('text') + _ - '}'
+note_object = pp.CaselessKeyword('note') + _ - '{' + _ - string_literal('text') + _ - '}'
 note_object.set_parse_action(lambda s, loc, tok: NoteBlueprint(tok['text']))
 
 pk = pp.CaselessLiteral("pk")
